@@ -7,14 +7,20 @@
 EXTENDS ClientStreamMC, Json, CSV, IOUtils
 
 \* `key` classifies the transition (source class, input, reaction); lib/props/C04.py replays a few
-\* shortest behaviours per distinct key instead of all ~3*10^5 transitions
+\* shortest behaviours per distinct key instead of all ~3*10^6 transitions.  (`last` repeats the
+\* last step inside the key so that the text before "steps" identifies cfg, key and input: the
+\* generator runs breadth-first with one worker, so the first line with a given prefix carries a
+\* shortest behaviour for it and all later ones are dropped without being decoded.)
 EmitBehaviour ==
-    CSVWrite("%1$s", <<ToJson([cfg |-> cfg', steps |-> hist',
+    CSVWrite("%1$s", <<ToJson([cfg |-> cfg',
                                key |-> [tls |-> cfg.tls, lst |-> c.lst, lq |-> c.lq, enc |-> c.enc, session |-> c.session,
                                         authed |-> c.authed, canResume |-> c.canResume, iq |-> c.iq, redirect |-> c.redirect,
-                                        conf |-> conf, prev |-> prev, out |-> lastOut', sig |-> lastSig', lst2 |-> c'.lst, endSock |-> c'.sock]])>>, IOEnv.QXV_GEN)
+                                        conf |-> conf, prev |-> prev, last |-> hist'[Len(hist')], out |-> lastOut', sig |-> lastSig', lst2 |-> c'.lst, endSock |-> c'.sock],
+                               steps |-> hist'])>>, IOEnv.QXV_GEN)
 
-PrevClass == IF prev.none THEN 0 ELSE IF prev.authed THEN 2 ELSE 1
+\* what the previous connection of this client object left behind: nothing / an authenticated
+\* stream / (not authenticated) the negotiation manager that was waiting for an answer
+PrevClass == IF prev.none THEN "none" ELSE IF prev.authed THEN "authed" ELSE prev.lst
 GenView == <<cfg, PrevClass, c.sock, c.enc, c.wrap, c.lst, c.lq, c.ver, c.authed, c.session, c.smEnabled, c.smResumed,
              c.canResume, c.redirect, c.mech, c.step, c.iq>>
 
